@@ -132,6 +132,20 @@ void sim_cache_restart(struct sim *s, bool new_data)
 		sim_cache_mutate(s, 1 + (int)rndn(&s->rng, 12));
 }
 
+void sim_cache_restart_with(struct sim *s, const bset *p, const bset *k)
+{
+	struct cache_model *c = &s->cache;
+	uint16_t ns;
+
+	do {
+		ns = (uint16_t)rnd32(&s->rng);
+	} while (ns == c->session);
+	c->session = ns;
+	c->serial = rnd32(&s->rng);
+	c->nhist = 0;
+	sim_cache_push_dataset(s, p, k);
+}
+
 /* ------------------------------------------------------------------ reference verdict */
 static int size_ok(const uint8_t *p, uint32_t len, size_t avail)
 {
@@ -732,6 +746,8 @@ static void random_plan(struct sim *s, struct xplan *pl)
 	if (s->cfg.p_defect && rndn(&s->rng, 1000) < (uint32_t)s->cfg.p_defect) {
 		pl->defect = (uint8_t)(1 + rndn(&s->rng, D_COUNT - 1));
 		pl->ver_byte = (uint8_t)(rndp(&s->rng, 1, 2) ? 2 : 255);
+		if (rndp(&s->rng, 1, 3))
+			pl->churn_first = (uint8_t)(1 + rndn(&s->rng, 3));
 	}
 }
 
@@ -834,6 +850,14 @@ void sim_answer_query(struct sim *s, uint8_t qtype, uint8_t qver, uint16_t qsess
 	if (av > 1)
 		av = 1;
 
+	if (s->restart_every_poll && qtype == 1 && s->presets_p) {
+		if (s->preset_next == 0)
+			s->preset_next = 1;
+		if (s->preset_next < s->npresets) {
+			sim_cache_restart_with(s, &s->presets_p[s->preset_next], &s->presets_k[s->preset_next]);
+			s->preset_next++;
+		}
+	}
 	if (pl.override == AO_NEW_SESSION) {
 		sim_cache_restart(s, true);
 		pl.override = AO_NORMAL;
@@ -926,6 +950,16 @@ void sim_answer_query(struct sim *s, uint8_t qtype, uint8_t qver, uint16_t qsess
 		}
 		pl_push(&l, tmp, (unsigned int)pdu_eod(tmp, av, c->session, c->serial, c->eod_refresh, c->eod_retry, c->eod_expire));
 		ex->has_response = true;
+		if (qtype == 2 && s->on_reset_answer)
+			s->on_reset_answer();
+		for (int i = 0; i < pl.churn_first; i++) {
+			struct xplan ch = pl;
+
+			ch.defect = D_B_CHURN;
+			ch.pos = (int16_t)(i == 0 ? -2 : -1);
+			apply_defect(s, ex, &l, &ch, av, &silent, &close_after, &cut_extra);
+			CNT("sim/defect/compound-churn-pairs");
+		}
 		if (pl.defect != D_NONE)
 			apply_defect(s, ex, &l, &pl, av, &silent, &close_after, &cut_extra);
 	}
